@@ -135,7 +135,7 @@ def gen_gradle(rng):
     for _ in range(n):
         conf = rng.choice(CONFS)
         g, a = rng.choice([x for x in GROUPS if "$" not in x]), rng.choice(ARTS)
-        v = rng.choice([":1.0", ":2.3.4.RELEASE", ""])
+        v = rng.choice([":1.0", ":2.3.4.RELEASE", "", ":1.0:linux-x86_64", ":1.0@aar", ":28.+", ":[4.12,5.0)"])      # classifier, extension, dynamic version, range
         r_k = rng.random()
         kind = rng.choice(STR_KINDS) if r_k < 0.6 else rng.choice(MULTI_KINDS) if r_k < 0.7 else rng.choice(OTHER_KINDS)
         text = g + ":" + a + v
